@@ -1144,7 +1144,7 @@ def reshape_contracts():
                       (1, (-1, -1)), (2, (-1, 's', -1))]:
         live.append(Reshape(ndim, pat))
     live += [Reshape(2, (-1,), as_int=True), Ravel(0), Ravel(1), Ravel(2)]
-    live += [Reshape(3, ('s',)), Reshape(3, (-1,)), Reshape(3, ('s', 's')), Reshape(1, ('s', 's', 's')), Reshape(3, (-1, 's')), Ravel(3)]
+    live += [Reshape(3, ('s',)), Reshape(3, (-1,)), Reshape(3, ('s', 's')), Reshape(3, (-1, 's')), Ravel(3)]
     parked += [Reshape(2, ('s', 's'), domain='nonneg'), Reshape(2, ('s',), domain='nonneg'), Reshape(2, (-1,), domain='nonneg'), Reshape(1, ('s', -1), domain='nonneg'),
                Reshape(1, ('s', 's'), domain='any')]
     return live, parked
